@@ -10,7 +10,17 @@ the four stages of toasty that share this protocol.
   (3) direct exploration of the real code (all four stages) under random and adversarial schedules derived from
       the spec's actions; property monitors decide.
   (4) real processes: per-pid logs, each item exactly once, all workers gone at return.
+  (5) a fault of the PRODUCER's iterable part-way through the item stream while the workers stay healthy
+      (spec/WorkQueueProd.tla: PFail): TLC proves ReturnedImpliesAll for the admissible reactions and refutes it for
+      "wind down and return"; behaviours with PFail are replayed into the real stages, and all four stages are run
+      with the fault injected under the scheduler and with real processes: a normal return with items never
+      handed to a worker is a violation, an exception is fine.
+  (6) histories on ONE Pyramid object (spec/LeafHistory.tla): counts / visits, then subpyramid() or a depth change,
+      then a serial or parallel visit: TLC emits the leaf set of the pyramid as it is after every step; every visit
+      of the replayed history must deliver exactly that set, each leaf once, with its own geometry.
 """
+import ast
+import contextlib
 import itertools
 import os
 import time
@@ -36,6 +46,50 @@ INVARIANT NeverSwallowed
 INVARIANT RaisedOnlyOnFault
 PROPERTY Ends
 PROPERTY ReturnsWhenFaultFree
+CHECK_DEADLOCK FALSE
+"""
+
+PCFG = """SPECIFICATION PSpec
+CONSTANTS
+ NItems = %(n)d
+ NW = %(w)d
+ Cap = %(cap)d
+ FaultSets <- NoFaults
+ Checked = TRUE
+ FlagFirst = TRUE
+ PipeCap = 99
+ JoinChecked = TRUE
+ ProdFaultAt <- AnyK
+ OnProdFault = "%(react)s"
+INVARIANT AtMostOnce
+INVARIANT ReturnedImpliesAll
+INVARIANT ReturnedImpliesAllPut
+INVARIANT NoLossAtSetP
+INVARIANT Bounded
+INVARIANT RaisedOnlyOnFaultP
+INVARIANT OnlyPutItems
+PROPERTY EndsP
+PROPERTY ReturnsWhenHealthy
+PROPERTY RaisesWhenProducerFails
+CHECK_DEADLOCK FALSE
+"""
+
+PSIMCFG = """SPECIFICATION SimSpec
+CONSTANTS
+ NItems = %(n)d
+ NW = %(w)d
+ Cap = %(cap)d
+ FaultSets <- NoFaults
+ Checked = TRUE
+ FlagFirst = TRUE
+ PipeCap = 99
+ JoinChecked = TRUE
+ ProdFaultAt = %(ks)s
+ OnProdFault = "propagate"
+INVARIANT AtMostOnce
+INVARIANT ReturnedImpliesAll
+INVARIANT ReturnedImpliesAllPut
+INVARIANT Emit
 CHECK_DEADLOCK FALSE
 """
 
@@ -93,9 +147,69 @@ def raise_fault(flavour, key):
     raise ValueError("injected fault at %r" % (key,))
 
 
+class ProducerFault(RuntimeError):
+    """What the producer's iterable raises when the harness makes it fail."""
+
+
+def _workers_started():
+    """Has the stage started worker processes (simulated or real)?  Producer faults are armed only then: the subject is a
+    fault DURING the dispatch, with workers waiting for items."""
+    S = simmp.S
+    if S is not None and S.me() is not None:
+        return any(p.started for p in S.procs)
+    import multiprocessing as mp
+    return bool(mp.active_children())
+
+
+class Injector(object):
+    """Fault of the producer's iterable.  The stage calls tick() at every event of its producer-side sources while workers
+    exist (before each element an iterable yields, where it ends, at each evaluation of the tile filter).  In record mode
+    the ticks note how many puts the parent had completed; in fault mode the j-th tick raises (after a sync point, so that
+    the scheduler - and a replayed TLC behaviour - decides when)."""
+
+    def __init__(self):
+        self.mode = "off"
+        self.j = None
+        self.n = 0
+        self.puts_before = []
+        self.fired = []
+        self.log = None
+
+    def reset(self, mode="off", j=None, log=None):
+        self.mode, self.j, self.n, self.puts_before, self.fired, self.log = mode, j, 0, [], [], log
+
+    def tick(self, what):
+        if self.mode == "off" or not _workers_started():
+            return
+        S = simmp.S
+        insim = S is not None and S.me() is not None
+        if insim and S.me() != "main":
+            return
+        j = self.n
+        self.n += 1
+        if self.mode == "record":
+            self.puts_before.append(sum(1 for a, op, o in S.trace if a == "main" and op[0] == "put" and o == "ok") if insim else -1)
+            return
+        if j == self.j:
+            self.fired.append(what)
+            if insim:
+                simmp.cb_sync("pfail", (what,), self.log)
+            raise ProducerFault("injected fault of the producer's iterable at %s" % (what,))
+
+    def wrap(self, it, name):
+        """The iterable `it`, failing where told to."""
+        def gen():
+            for x in it:
+                self.tick("%s: element %r" % (name, getattr(x, "pos", getattr(x, "collection_id", x))))
+                yield x
+            self.tick("%s: end" % name)
+        return gen()
+
+
 class Stage(object):
     name = None
     key = None
+    real_dir = None          # real-process mode: callbacks append to per-pid files here instead of posting sync points
 
     def items(self):
         """Serial-mode item list (the reference set), as hashable keys in producer order."""
@@ -107,17 +221,85 @@ class Stage(object):
     flavour = "plain"
 
     def _cb(self, key, log, faults, extra=None):
+        if self.real_dir is not None:
+            return self._cb_real(key, extra)
         simmp.cb_sync("cb_start", (key, extra), log)
         if key in faults:
             raise_fault(self.flavour, key)
         simmp.cb_sync("cb_end", (key, extra), log)
 
+    def _cb_real(self, key, extra):
+        fn = os.path.join(self.real_dir, "log-%d" % os.getpid())
+        with open(fn, "a") as f:
+            f.write("s\t%r\t%r\n" % (key, extra))
+        x = 0
+        for i in range(2000):
+            x += i
+        with open(fn, "a") as f:
+            f.write("e\t%r\t%r\n" % (key, extra))
+
+    # ---- producer faults
+    @property
+    def inj(self):
+        if "_inj" not in self.__dict__:
+            self._inj = Injector()
+            self._pf_table = {}
+        return self._inj
+
+    def calibrate(self, ctx, nw):
+        """Learn, from one recorded run under the scheduler, which tick of the producer's sources comes after the (k-1)-th put
+        and before the k-th: k -> tick index (program order of the parent: the same under every schedule)."""
+        inj = self.inj
+        if nw in self._pf_table:
+            return self._pf_table[nw]
+        inj.reset("record")
+        log = []
+        out = simrun.run(self.main(nw, log), simrun.pol_random(ctx.rng))
+        pb = list(inj.puts_before)
+        inj.reset("off")
+        n = len(self.items())
+        table = {}
+        if out.status == "returned":
+            for k in range(1, n + 2):
+                js = [j for j, b in enumerate(pb) if b == k - 1]
+                if js:
+                    table[k] = js[-1]
+        self._pf_table[nw] = table
+        return table
+
+    def arm(self, ctx, nw, k, log=None):
+        """Make the producer's iterable raise instead of delivering its k-th item (k = number of items + 1: where it should have
+        ended); k = 0 / None: healthy.  Returns False if this stage has no such point."""
+        if not k:
+            self.inj.reset("off")
+            return True
+        t = self.calibrate(ctx, nw)
+        if k not in t:
+            self.inj.reset("off")
+            return False
+        self.inj.reset("fault", t[k], log)
+        return True
+
+
+@contextlib.contextmanager
+def patched(obj, name, make):
+    """Temporarily replace obj.name by make(original) - the harness's way of letting a position generator of the library fail."""
+    orig = getattr(obj, name)
+    setattr(obj, name, make(orig))
+    try:
+        yield
+    finally:
+        setattr(obj, name, orig)
+
 
 class LeafStage(Stage):
-    def __init__(self, label, depth, kind="toast", accept=None, apex=None, coordsys=None):
+    def __init__(self, label, depth, kind="toast", accept=None, apex=None, coordsys=None, via="generator"):
         self.name = "visit_leaves[%s]" % label
         self.key = "visit_leaves"
         self.depth, self.kind, self.accept, self.apex, self.coordsys = depth, kind, accept, apex, coordsys
+        self.via = via           # where a producer fault is injected: the position generator, or the user's tile filter
+        if via == "filter":
+            self.name += " (faults: tile filter)"
 
     def pyramid(self):
         from toasty.pyramid import Pyramid, Pos
@@ -127,7 +309,15 @@ class LeafStage(Stage):
             p = Pyramid.new_toast(self.depth)
         else:
             acc = self.accept
-            p = Pyramid.new_toast_filtered(self.depth, lambda t: tuple(t.pos) in acc)
+            if self.via == "filter":
+                inj = self.inj
+
+                def flt(t):
+                    inj.tick("tile filter evaluated at %s" % (tuple(t.pos),))
+                    return tuple(t.pos) in acc
+                p = Pyramid.new_toast_filtered(self.depth, flt)
+            else:
+                p = Pyramid.new_toast_filtered(self.depth, lambda t: tuple(t.pos) in acc)
         if self.apex is not None:
             p = p.subpyramid(Pos(*self.apex))
         return p
@@ -138,13 +328,30 @@ class LeafStage(Stage):
             self.pyramid().visit_leaves(lambda pos, tile: out.append(tuple(pos)), parallel=1)
         return out
 
+    @contextlib.contextmanager
+    def sources(self):
+        """The position generators the pyramid draws from, able to fail (only while a producer fault is being recorded / injected)."""
+        inj = self.inj
+        if inj.mode == "off" or self.via != "generator":
+            yield
+            return
+        from toasty import pyramid, toast
+        mk = lambda name: (lambda orig: (lambda *a, **k: inj.wrap(orig(*a, **k), name)))      # noqa: E731
+        with patched(pyramid, "generate_pos", mk("generate_pos")), patched(toast, "generate_tiles", mk("generate_tiles")), \
+                patched(toast, "generate_tiles_filtered", mk("generate_tiles_filtered")):
+            yield
+
     def main(self, parallel, log, faults=()):
         def cb(pos, tile):
             geo = None
             if self.kind != "generic":
                 geo = None if tile is None else tuple(tile.pos)
             self._cb(tuple(pos), log, faults, geo)
-        return lambda: self.pyramid().visit_leaves(cb, parallel=parallel)
+
+        def run():
+            with self.sources():
+                self.pyramid().visit_leaves(cb, parallel=parallel)
+        return run
 
 
 class TransformStage(Stage):
@@ -162,10 +369,41 @@ class TransformStage(Stage):
 
         def do_one(buf, pos, pio_in, pio_out):
             self._cb(tuple(pos), log, faults)
-        return lambda: transform._do_a_transform(None, self.depth, lambda: None, do_one, parallel=parallel)
+        inj = self.inj
+
+        def run():
+            if inj.mode == "off":
+                return transform._do_a_transform(None, self.depth, lambda: None, do_one, parallel=parallel)
+            with patched(transform, "generate_pos", lambda orig: (lambda *a, **k: inj.wrap(orig(*a, **k), "generate_pos"))):
+                return transform._do_a_transform(None, self.depth, lambda: None, do_one, parallel=parallel)
+        return run
 
 
-_MT_HOOK = {"index": {}, "cb": None, "installed": False}
+def failing_collection(inner, inj):
+    """A user-defined ImageCollection that delegates to `inner`; its images() iterator can be made to raise part-way."""
+    from toasty import collection
+
+    class FailingCollection(collection.ImageCollection):
+        def descriptions(self):
+            return inner.descriptions()
+
+        def images(self):
+            return inj.wrap(inner.images(), "images()")
+
+        def export_simple(self):
+            return inner.export_simple()
+    return FailingCollection()
+
+
+def _tiling_content(t):
+    """A StudyTiling identified by its contents (queue items are pickled between real processes: object identity is lost)."""
+    try:
+        return tuple(sorted((k, int(v)) for k, v in vars(t).items()))
+    except Exception:  # noqa
+        return None
+
+
+_MT_HOOK = {"index": {}, "content": {}, "cb": None, "installed": False}
 
 
 class MultiTanStage(Stage):
@@ -214,6 +452,8 @@ class MultiTanStage(Stage):
             import tempfile
             out = tempfile.mkdtemp(dir=stage.dir)
             coll = collection.SimpleFitsCollection(stage.paths, hdu_index=stage.hdu_index) if stage.hdu_index else collection.SimpleFitsCollection(stage.paths)
+            if stage.inj.mode != "off":
+                coll = failing_collection(coll, stage.inj)
             proc = multi_tan.MultiTanProcessor(coll)
             pio = pyramid.PyramidIO(out, default_format="fits")
             bld = builder.Builder(pio)
@@ -228,11 +468,14 @@ class MultiTanStage(Stage):
             # the hook stays installed after this function returns or raises: in a simulated run the workers share this
             # memory and may still be delivering items while the parent is already unwinding
             _MT_HOOK["index"], _MT_HOOK["cb"] = index, (lambda i: stage._cb(i, log, faults))
+            _MT_HOOK["content"] = {_tiling_content(d.sub_tiling): i for i, d in enumerate(proc._descs)} if stage.real_dir is not None else {}
             if not _MT_HOOK["installed"]:
                 orig = study.StudyTiling.generate_populated_positions
 
                 def hooked(self_tiling):
                     i = _MT_HOOK["index"].get(id(self_tiling))
+                    if i is None and _MT_HOOK["content"]:
+                        i = _MT_HOOK["content"].get(_tiling_content(self_tiling))
                     if i is not None:
                         _MT_HOOK["cb"](i)
                     return orig(self_tiling)
@@ -275,6 +518,8 @@ class MultiWcsStage(Stage):
             import numpy as np
             out = tempfile.mkdtemp(dir=stage.dir)
             coll = collection.SimpleFitsCollection(stage.paths)
+            if stage.inj.mode != "off":
+                coll = failing_collection(coll, stage.inj)
             proc = multi_wcs.MultiWcsProcessor(coll)
             pio = pyramid.PyramidIO(out, default_format="fits")
             bld = builder.Builder(pio)
@@ -323,6 +568,33 @@ def judge(ctx, stage, items, out, log, policy, replay_info):
     return bad
 
 
+def judge_pfault(ctx, stage, items, out, log, policy, k, replay_info):
+    """C03's sentence "returns only after all items have been fully processed" when the producer's iterable failed part-way while
+    the workers stayed healthy: an exception is fine; a NORMAL return is not, unless every item was processed all the same."""
+    fired = list(stage.inj.fired)
+    if not fired:
+        # the fault point was never reached (the code draws its items differently now): an ordinary run
+        return judge(ctx, stage, items, out, log, policy, replay_info)
+    started = [p[0] for tag, p, who in log if tag == "cb_start"]
+    ended = [p[0] for tag, p, who in log if tag == "cb_end"]
+    key = "C03:%s" % stage.key
+    rep = dict(replay_info, stage=stage.name, policy=policy, status=out.status, producer_fault=fired[0], k=k,
+               trace_tail=[list(map(str, t)) for t in out.trace[-40:]])
+    bad = False
+    if out.status == "returned" and sorted(map(repr, ended)) != sorted(map(repr, items)):
+        missing = [i for i in items if i not in ended]
+        bad = ctx.violation(key + ":returned-after-producer-fault",
+                            "%s returned normally although its item stream failed part-way (%s) with healthy workers: %d of %d items were never "
+                            "handed to any worker (%s ...) under %s" % (stage.name, fired[0], len(missing), len(items), missing[:4], policy), rep)
+    elif out.status == "returned" and out.workers_alive_at_return:
+        bad = ctx.violation(key + ":workers-alive", "%s returned while workers %s were still running under %s" % (stage.name, out.workers_alive_at_return, policy), rep)
+    elif out.status in ("hang", "limit"):
+        ctx.drift("%s: does not end (%s) after a fault of the producer's iterable (%s) under %s - outside C03's sentences" % (stage.name, out.status, fired[0], policy))
+    if len(started) != len(set(started)):
+        bad = ctx.violation(key + ":twice", "%s handed an item to two workers under %s" % (stage.name, policy), rep) or bad
+    return bad
+
+
 # ------------------------------------------------------------------------------------------------
 # spec -> code replay
 # ------------------------------------------------------------------------------------------------
@@ -368,7 +640,9 @@ def make_replay(stage, items, nw):
             """check_workers found a dead worker: it sets the flag (one more step of the code) and raises."""
             if rec["outcome"] == "raised" and (S.pending("main") or ("",))[0] == "event_set":
                 S.step("main", "ok")
-        if act == "PPut":
+        if act == "PFail":
+            need("main", "pfail"); S.step("main", "ok")
+        elif act == "PPut":
             need("main", "put"); S.step("main", "ok")
         elif act == "PPutFull":
             need("main", "put"); S.step("main", "full_timeout")
@@ -457,8 +731,9 @@ def _key(x):
     return x
 
 
-def replay_stage(ctx, stage, nw, nbeh, depth, faultsets="NoFaults", judge_faults=False, keyprefix="C03", pipecap=99):
-    """Simulate the spec with the stage's real item count and queue capacity; replay each behaviour."""
+def replay_stage(ctx, stage, nw, nbeh, depth, faultsets="NoFaults", judge_faults=False, keyprefix="C03", pipecap=99, prod=0):
+    """Simulate the spec with the stage's real item count and queue capacity; replay each behaviour.  prod = number of
+    producer-fault positions to mix in (WorkQueueProd: about prod/(prod+1) of the behaviours then carry a PFail)."""
     items = stage.items()
     # learn the capacity the code uses from a dry run
     log0 = []
@@ -467,32 +742,78 @@ def replay_stage(ctx, stage, nw, nbeh, depth, faultsets="NoFaults", judge_faults
     if not cap or len(out0.maxsizes) != 1:
         ctx.drift("%s does not use exactly one bounded multiprocessing.Queue any more (%s); spec replay skipped" % (stage.name, out0.maxsizes))
         return 0
-    cfg = (SIMCFG % dict(n=len(items), w=nw, cap=cap, faults=faultsets)).replace("PipeCap = 99", "PipeCap = %d" % pipecap)
-    r = ctx.tlc("WorkQueueSim", cfg_text=cfg, simulate=nbeh, depth=depth, workers=1, timeout=300)
-    behs = parse_sim_stream(r.json_lines("TR"), ["faults"])
+    ks = []
+    if prod:
+        table = stage.calibrate(ctx, nw)
+        ks = sorted(ctx.rng.sample(sorted(table), min(prod, len(table))))
+        if not ks:
+            ctx.drift("%s: no point found at which its producer-side iterable can be made to fail during the dispatch" % stage.name)
+    if ks:
+        cfg = (PSIMCFG % dict(n=len(items), w=nw, cap=cap, ks="{%s}" % ", ".join(map(str, [0] + ks)))).replace("PipeCap = 99", "PipeCap = %d" % pipecap)
+        r = ctx.tlc("WorkQueueProdSim", cfg_text=cfg, simulate=nbeh, depth=depth, workers=1, timeout=300)
+        behs = parse_sim_stream(r.json_lines("TR"), ["faults", "pfail"])
+    else:
+        cfg = (SIMCFG % dict(n=len(items), w=nw, cap=cap, faults=faultsets)).replace("PipeCap = 99", "PipeCap = %d" % pipecap)
+        r = ctx.tlc("WorkQueueSim", cfg_text=cfg, simulate=nbeh, depth=depth, workers=1, timeout=300)
+        behs = parse_sim_stream(r.json_lines("TR"), ["faults"])
     okc = 0
     drifted = False
+    npf = 0
     for b in behs:
         faults = {items[i - 1] for i in b[0]["faults"]}
         log, setup, do_action, project, expect = make_replay(stage, items, nw)
+        k = b[0].get("pfail", 0)
+        stage.arm(ctx, nw, k, log)
         try:
             n, info = simrun.replay(stage.main(nw, log, faults), b, setup, do_action, project, expect)
             okc += 1
             ctx.trace_ok()
-            ctx.distinct(("replay", stage.key, tuple((x["act"], x["who"]) for x in b[1:])))
+            ctx.distinct(("replay", stage.key, k, tuple((x["act"], x["who"]) for x in b[1:])))
+            if any(x["act"] == "PFail" for x in b[1:]):
+                npf += 1
         except simrun.ReplayMismatch as e:
             if not drifted:
                 ctx.drift("%s: replay of a TLC behaviour diverged: %s %s" % (stage.name, e, e.detail))
                 drifted = True
             ctx.add_note("replay_divergences")
+        finally:
+            stage.arm(ctx, nw, 0)
+    if npf:
+        ctx.add_note("replayed_behaviours_with_producer_fault", npf)
     if drifted:
         # DESIGN 2.1: TLC's exhaustive result no longer transfers to this code; explore it directly, harder
         explore(ctx, stage, nw, list(simrun.POLICIES), 12 if ctx.quick else 60)
+        if ks:
+            explore_pfault(ctx, stage, nw, list(simrun.POLICIES), 3 if ctx.quick else 12)
     if behs:
         b = behs[len(behs) // 2]
         ctx.sample({"stage": stage.name, "replayed_behaviour": [[x["act"], x["who"]] for x in b[1:]][:60], "faults": b[0]["faults"],
-                    "final_outcome": b[-1]["outcome"]})
+                    "producer_fault_at": b[0].get("pfail", 0), "final_outcome": b[-1]["outcome"]})
     return okc
+
+
+def explore_pfault(ctx, stage, nw, policies, runs_per_policy):
+    """The stage under the scheduler with its producer-side iterable failing at a seeded position k of the item stream."""
+    items = stage.items()
+    table = stage.calibrate(ctx, nw)
+    if not table:
+        ctx.drift("%s: no point found at which its producer-side iterable can be made to fail during the dispatch" % stage.name)
+        return 0
+    n = 0
+    for pol in policies:
+        for r_ in range(runs_per_policy):
+            k = ctx.rng.choice(sorted(table))
+            log = []
+            stage.arm(ctx, nw, k, log)
+            try:
+                out = simrun.run(stage.main(nw, log), simrun.POLICIES[pol](ctx.rng))
+                ctx.count()
+                n += 1
+                judge_pfault(ctx, stage, items, out, log, pol, k, {"seed": ctx.seed, "run": r_, "workers": nw})
+                ctx.distinct(("sched-pfault", stage.key, nw, k, tuple((a, o) for a, _op, o in out.trace)))
+            finally:
+                stage.arm(ctx, nw, 0)
+    return n
 
 
 def explore(ctx, stage, nw, policies, runs_per_policy, judge_fn=judge):
@@ -598,6 +919,237 @@ def real_leaf_run(ctx, depth, parallel, accept=None):
             ctx.drift("real-process visit_leaves trace (%d events, %d workers) is not a behaviour of WorkQueue according to TLC (%s)" % (len(trace), parallel, r.violated))
 
 
+def real_stage_run(ctx, stage, parallel, k=0):
+    """One stage with real worker processes (callbacks append to per-pid files), optionally with its producer-side iterable failing
+    at position k of the item stream.  Runs in a forked child in its own process group (the unchanged code leaves its daemonic
+    workers polling when the producer raises; they are killed with the group)."""
+    import multiprocessing as mp
+    from lib import guard
+    items = stage.items()
+    if not stage.arm(ctx, parallel, k):
+        ctx.drift("%s: no point found at which its producer-side iterable can be made to fail at item %d" % (stage.name, k))
+        return
+    d = ctx.mkdtemp("realstage")
+    stage.real_dir = d
+    fn = stage.main(parallel, None)
+
+    def body():
+        status = "returned"
+        with simrun.quiet():
+            try:
+                fn()
+            except BaseException as e:  # noqa
+                status = "raised: %r" % (e,)
+        return status, [c.pid for c in mp.active_children() if c.is_alive()], list(stage.inj.fired)
+    try:
+        kind, val = guard.run_guarded(body, 120)
+    finally:
+        stage.real_dir = None
+        stage.arm(ctx, parallel, 0)
+    ctx.count()
+    key = "C03:%s" % stage.key
+    rep = {"stage": stage.name, "parallel": parallel, "producer_fault_at": k}
+    if kind == "timeout":
+        if k:
+            ctx.drift("%s with real processes did not end within the 120 s backstop after a fault of the producer's iterable" % stage.name)
+        else:
+            ctx.violation(key + ":hang-real", "real-process %s (parallel=%d) did not return within the 120 s backstop" % (stage.name, parallel), rep)
+        return
+    if kind == "raised":
+        ctx.machinery("real-process run of %s broke: %s" % (stage.name, val))
+        return
+    status, alive, fired = val
+    ended, started = [], []
+    for fn_ in os.listdir(d):
+        for line in open(os.path.join(d, fn_)):
+            tag, item, _extra = line.rstrip("\n").split("\t")
+            item = ast.literal_eval(item)
+            (started if tag == "s" else ended).append(item)
+    rep["status"] = status
+    rep["producer_fault"] = fired[:1]
+    ctx.distinct(("real-stage", stage.key, parallel, k))
+    if status != "returned":
+        if not fired:
+            ctx.violation(key + ":raised-real", "real-process %s (parallel=%d) raised without any injected fault: %s" % (stage.name, parallel, status), rep)
+        return          # the producer's iterable failed and the stage raised: fine
+    if sorted(map(repr, ended)) != sorted(map(repr, items)):
+        missing = [i for i in items if i not in ended]
+        if fired:
+            ctx.violation(key + ":returned-after-producer-fault-real",
+                          "%s with %d real worker processes returned normally although its item stream failed part-way (%s): %d of %d items were "
+                          "never handed to any worker (%s ...)" % (stage.name, parallel, fired[0], len(missing), len(items), missing[:4]), rep)
+        else:
+            ctx.violation(key + ":items-real", "real-process %s (parallel=%d) processed %d items, serial mode %d (missing %s)"
+                          % (stage.name, parallel, len(ended), len(items), missing[:4]), rep)
+    if len(started) != len(set(map(repr, started))):
+        ctx.violation(key + ":twice-real", "real-process %s handed an item to two workers" % stage.name, rep)
+    if alive:
+        ctx.violation(key + ":workers-alive-real", "%s returned with %d live worker processes" % (stage.name, len(alive)), rep)
+
+
+# ------------------------------------------------------------------------------------------------
+# histories on one Pyramid object (spec/LeafHistory.tla)
+# ------------------------------------------------------------------------------------------------
+
+HCFG = """SPECIFICATION HSpec
+CONSTANTS
+ HKinds <- MCKinds
+ HAccepts <- MCAccepts
+ HDepths <- MCDepths
+ HApexes <- MCApexes
+ HLen = %d
+INVARIANT HistoryFree
+INVARIANT Emit
+PROPERTY ObservationsPure
+CHECK_DEADLOCK FALSE
+"""
+
+
+def _all_positions(maxd):
+    return frozenset((n, x, y) for n in range(0, maxd + 1) for x in range(2 ** n) for y in range(2 ** n))
+
+
+def _random_filter(rng, maxd):
+    """A user filter as an accept set: a random subtree-closed-ish selection (each accepted tile's children accepted with p = 0.7)."""
+    acc = set()
+    frontier = [(1, x, y) for x in range(2) for y in range(2)]
+    while frontier:
+        nxt = []
+        for t in frontier:
+            if rng.random() < 0.7:
+                acc.add(t)
+                if t[0] < maxd:
+                    n, x, y = t
+                    nxt.extend((n + 1, 2 * x + i, 2 * y + j) for i in range(2) for j in range(2))
+        frontier = nxt
+    return frozenset(acc)
+
+
+def replay_history(ctx, rec, accepts, full_index):
+    """One real Pyramid object driven through a TLC history; every visit must deliver the leaf set the spec records for that step."""
+    from toasty.pyramid import Pyramid, Pos
+    kind, ai, hist = rec["kind"], rec["ai"], rec["hist"]
+    acc = accepts[ai - 1]
+    d0 = rec["d0"]
+    if kind == "generic":
+        p = Pyramid.new_generic(d0)
+    elif ai == full_index:
+        p = Pyramid.new_toast(d0)
+    else:
+        p = Pyramid.new_toast_filtered(d0, lambda t: tuple(t.pos) in acc)
+    done = []
+    case = {"kind": kind, "filter": None if (kind == "generic" or ai == full_index) else sorted(acc), "initial_depth": d0}
+    for step in hist:
+        op = step["op"]
+        done.append([op] + ([list(step["arg"])] if step["arg"] else []))
+        exp = sorted(tuple(q) for q in step["leaves"])
+        try:
+            with simrun.quiet():
+                if op == "count_leaf":
+                    p.count_leaf_tiles()
+                elif op == "count_live":
+                    p.count_live_tiles()
+                elif op == "count_ops":
+                    p.count_operations()
+                elif op == "subpyramid":
+                    p.subpyramid(Pos(*step["arg"]))
+                elif op == "set_depth":
+                    p.depth = step["arg"][0]
+        except Exception as e:  # noqa - the counts are C13's subject
+            ctx.drift("history %s on one %s Pyramid: %s raised %r (counts are judged by C13); history abandoned" % (done, kind, op, e))
+            return
+        if op not in ("visit_serial", "visit_parallel"):
+            continue
+        seen, geo_bad = [], []
+        rep = dict(case, history=done, expected_leaves=exp)
+        if op == "visit_serial":
+            def cb(pos, tile):
+                seen.append(tuple(pos))
+                if kind == "toast" and step["depth"] > 0 and (tile is None or tuple(tile.pos) != tuple(pos)):
+                    geo_bad.append(tuple(pos))
+            try:
+                with simrun.quiet():
+                    p.visit_leaves(cb, parallel=1)
+            except Exception as e:  # noqa
+                ctx.violation("C03:visit_leaves:history-raised", "after the history %s on one Pyramid object the serial visit raised %r" % (done[:-1], e), rep)
+                return
+            how = "serial visit"
+        else:
+            log = []
+
+            def cbp(pos, tile):
+                geo = None if (kind != "toast" or step["depth"] == 0) else (None if tile is None else tuple(tile.pos))
+                simmp.cb_sync("cb_start", (tuple(pos), geo), log)
+                simmp.cb_sync("cb_end", (tuple(pos), geo), log)
+            out = simrun.run(lambda: p.visit_leaves(cbp, parallel=2), simrun.pol_random(ctx.rng))
+            how = "visit with 2 workers"
+            if out.status != "returned":
+                ctx.violation("C03:visit_leaves:history-%s" % ("hang" if out.status in ("hang", "limit") else "raised"),
+                              "after the history %s on one Pyramid object the %s ended as %s %r" % (done[:-1], how, out.status, out.exc), rep)
+                return
+            seen = [q[0] for tag, q, who in log if tag == "cb_end"]
+            if kind == "toast" and step["depth"] > 0:
+                geo_bad = [q[0] for tag, q, who in log if tag == "cb_start" and q[1] != q[0]]
+            if out.workers_alive_at_return:
+                ctx.violation("C03:visit_leaves:workers-alive", "visit_leaves returned while workers %s were still running" % out.workers_alive_at_return, rep)
+        ctx.count()
+        if sorted(seen) != exp:
+            extra = sorted(set(seen) - set(exp))
+            missing = sorted(set(exp) - set(seen))
+            dup = sorted({q for q in seen if seen.count(q) > 1})
+            ctx.violation("C03:visit_leaves:history-items",
+                          "after the history %s on one %s Pyramid object the %s handed out %d leaves; the leaf tiles that pass the filter and lie in the "
+                          "sub-pyramid as it is now are %d (not leaves of the current pyramid: %s; never delivered: %s; delivered twice: %s)"
+                          % (done[:-1], kind, how, len(seen), len(exp), extra[:4], missing[:4], dup[:4]), dict(rep, delivered=sorted(seen)[:40]))
+        if geo_bad:
+            ctx.violation("C03:visit_leaves:geometry", "after the history %s a leaf was delivered with another tile's geometry: %s" % (done[:-1], geo_bad[:3]), rep)
+    ctx.trace_ok()
+    ctx.distinct(("history", kind, ai, tuple(tuple(x[0:1]) + tuple(map(tuple, x[1:])) for x in done)))
+
+
+def history_check(ctx):
+    q = ctx.quick
+    maxd = 2 if q else 3
+    full = _all_positions(maxd)
+    l1 = [(1, 0, 0), (1, 1, 0), (1, 0, 1), (1, 1, 1)]
+    acc5 = frozenset(l1[:2]) | {(2, 0, 0), (2, 1, 1), (2, 2, 0), (2, 3, 0), (2, 3, 1)}
+    if not q:
+        acc5 = acc5 | {(3, 0, 0), (3, 1, 1), (3, 4, 0), (3, 5, 1), (3, 6, 2), (3, 7, 3), (3, 2, 3)}
+    accepts = [full, acc5]
+    while len(accepts) < (3 if q else 5):
+        a = _random_filter(ctx.rng, maxd)
+        if a and a not in accepts:
+            accepts.append(a)
+    depths = [1, 2] if q else [1, 2, 3]
+    apexes = [(1, 1, 0), (1, 0, 1), (2, 0, 0)] if q else [(1, 1, 0), (1, 0, 1), (2, 0, 0), (2, 3, 1), (3, 4, 0)]
+    hlen = 3 if q else 4
+    defs = [("MCKinds", tla.lit({"generic", "toast"})), ("MCAccepts", tla.lit([set(a) for a in accepts])), ("MCDepths", tla.lit(set(depths))),
+            ("MCApexes", tla.lit(set(apexes))),
+            'Emit == Complete => PrintT(<<"H", ToJson([kind |-> kind, ai |-> ai, d0 |-> d0, hist |-> hist])>>)']
+    mod = tla.module("MCLeafHistory", ["LeafHistory", "Json"], defs)
+    r = ctx.tlc("MCLeafHistory", extra={"MCLeafHistory.tla": mod}, cfg_text=HCFG % hlen, workers=4, timeout=1800)
+    recs = r.json_lines("H")
+    if not recs:
+        ctx.machinery("TLC emitted no object histories")
+        return
+
+    def interesting(x):
+        """an observation, then a change of the configuration, then a visit: the order in which remembered results can go stale"""
+        ops = [h["op"] for h in x["hist"]]
+        chg = [i for i, o in enumerate(ops) if o in ("subpyramid", "set_depth")]
+        return bool(chg) and any(o not in ("subpyramid", "set_depth") for o in ops[:chg[-1]])
+    first = [x for x in recs if interesting(x)]
+    rest = [x for x in recs if not interesting(x)]
+    ctx.rng.shuffle(first)
+    ctx.rng.shuffle(rest)
+    chosen = (first[:150] + rest[:40]) if q else (first + rest)
+    for x in chosen:
+        replay_history(ctx, x, accepts, 1)
+    ctx.note("object_histories", {"emitted_by_tlc": len(recs), "replayed": len(chosen), "of_which_observe_change_visit": len([x for x in chosen if interesting(x)])})
+    x = chosen[0]
+    ctx.sample({"object_history": [[h["op"], h["arg"], sorted(map(tuple, h["leaves"]))[:8]] for h in x["hist"]], "kind": x["kind"], "filter": x["ai"]})
+
+
 def run(ctx):
     repo.setup(ctx)
     ctx.rule = ("TLC explores spec/WorkQueue.tla exhaustively (all interleavings of producer, feeder, worker sub-steps and timeouts) "
@@ -610,23 +1162,40 @@ def run(ctx):
     confs = [dict(n=4, w=2, cap=2), dict(n=4, w=2, cap=1)] if q else \
             [dict(n=4, w=2, cap=2), dict(n=4, w=2, cap=1), dict(n=3, w=3, cap=2), dict(n=5, w=2, cap=4), dict(n=4, w=3, cap=6), dict(n=3, w=3, cap=1)]
     import concurrent.futures
-    jobs = [lambda c=c: ctx.tlc("MCWorkQueue", cfg_text=CFG % dict(c, faults="NoFaults"), timeout=1800, workers=4) for c in confs]
+    # the first two configurations are checked with the producer's iterable failing at every position k (k = 0: healthy - WorkQueue's own
+    # state graph is the pfail = 0 part), once for each admissible reaction; the others as WorkQueue stands
+    reacts = {0: "propagate", 1: "wind-down-raise"}
+    jobs = [(lambda c=c, i=i: ctx.tlc("MCWorkQueueProd", cfg_text=PCFG % dict(c, react=reacts[i]), timeout=1800, workers=4)) if i in reacts else
+            (lambda c=c: ctx.tlc("MCWorkQueue", cfg_text=CFG % dict(c, faults="NoFaults"), timeout=1800, workers=4)) for i, c in enumerate(confs)]
     # the OS pipe between feeder and workers: items larger than the pipe (PipeCap 0: images), a pipe of one item
     for c, pc in ([(confs[0], 0), (confs[1], 1)] if q else [(c, pc) for c in confs[:4] for pc in (0, 1)]):
         jobs.append(lambda c=c, pc=pc: ctx.tlc("MCWorkQueue", cfg_text=(CFG % dict(c, faults="NoFaults")).replace("PipeCap = 99", "PipeCap = %d" % pc), timeout=1800, workers=4))
+    if not q:
+        jobs.append(lambda: ctx.tlc("MCWorkQueueProd", cfg_text=(PCFG % dict(confs[0], react="propagate")).replace("PipeCap = 99", "PipeCap = 0"), timeout=1800, workers=4))
+        jobs.append(lambda: ctx.tlc("MCWorkQueueProd", cfg_text=PCFG % dict(confs[2], react="wind-down-raise"), timeout=1800, workers=4))
+    # negative control: winding the workers down and then RETURNING after the producer's iterable failed must be refuted
+    neg = lambda: ctx.tlc("MCWorkQueueProd", cfg_text=PCFG % dict(n=3, w=2, cap=2, react="wind-down-return"), timeout=600, workers=2,      # noqa: E731
+                          expect_violation=True, count=False)
     with concurrent.futures.ThreadPoolExecutor(max_workers=4) as ex:
+        fneg = ex.submit(neg)
         for f in [ex.submit(j) for j in jobs]:
             f.result()
+        rneg = fneg.result()
+    if rneg.violated not in ("ReturnedImpliesAll", "ReturnedImpliesAllPut"):
+        ctx.machinery("negative control: TLC did not refute ReturnedImpliesAll for a stage that returns normally after its producer failed (%s)" % rneg.violated)
+    else:
+        ctx.note("negative_control_wind_down_return", "refuted by TLC (%s)" % rneg.violated)
     # (2) spec -> code replay
     l1 = [(1, 0, 0), (1, 1, 0), (1, 0, 1), (1, 1, 1)]
     acc5 = frozenset(l1[:2]) | {(2, 0, 0), (2, 1, 1), (2, 2, 0), (2, 3, 0), (2, 3, 1)}
     stages = [LeafStage("toast depth 1", 1), LeafStage("toast filtered depth 2, 5 leaves", 2, accept=acc5),
               LeafStage("generic sub-pyramid", 2, kind="generic", apex=(1, 1, 0)), TransformStage(1)]
-    nb = 40 if q else 400
+    nb = 60 if q else 600
     for st in stages:
-        replay_stage(ctx, st, 2, nb, 150)
+        replay_stage(ctx, st, 2, nb, 150, prod=2)        # about a third of the behaviours healthy, the others with PFail at two seeded positions
     if not q:
         replay_stage(ctx, stages[0], 3, 200, 200)
+        replay_stage(ctx, stages[1], 3, 200, 200, prod=3)
     # (3) direct exploration of all four stages
     pols = list(simrun.POLICIES)
     allstages = stages + [LeafStage("toast depth 2", 2), LeafStage("planetary depth 1", 1),
@@ -647,6 +1216,18 @@ def run(ctx):
     for st in (mt, mw, mtbig, mtmef):
         explore(ctx, st, 2, ["random", "flag-race", "starve-feeder", "eager-timeout"], 2 if q else 15)
     replay_stage(ctx, mtbig, 2, 15 if q else 150, 150, pipecap=0)
+    # (3p) a fault of the producer's iterable part-way through the item stream, workers healthy: the position generator / the user's tile
+    # filter (visit_leaves), the position generator (transform), the collection's images() (multi_tan, multi_wcs)
+    leaf_filter = LeafStage("toast filtered depth 2, 5 leaves", 2, accept=acc5, via="filter")
+    pstages = [stages[1], leaf_filter, stages[2], TransformStage(1), mt, mw]
+    if not q:
+        pstages += [stages[0], LeafStage("toast sub-pyramid", 2, apex=(1, 0, 1)), TransformStage(2), mtbig, mtmef]
+    for st in pstages:
+        explore_pfault(ctx, st, 2, ["random", "eager-timeout", "workers-last"], 2 if q else 12)
+        explore_pfault(ctx, st, 3, ["random", "main-first"], 1 if q else 8)
+    if not q:
+        replay_stage(ctx, leaf_filter, 2, 200, 150, prod=3)
+        replay_stage(ctx, mt, 2, 100, 150, prod=2)
     # (3a') the same stages when the dispatching process is PID 1 (a container's entry point): every worker's parent pid is 1
     # from the start - which must not be mistaken for "orphaned"
     real_getppid = os.getppid
@@ -674,9 +1255,22 @@ def run(ctx):
                               {"stage": st.name, "victim": victim, "trace_tail": [list(map(str, t)) for t in out.trace[-30:]]})
     # (4) real processes
     real_leaf_run(ctx, 1, 2)
+    # ... and with the producer's iterable failing part-way (all four stages)
+    for st in [stages[1], TransformStage(1), mt, mw]:
+        real_stage_run(ctx, st, 2, k=ctx.rng.randrange(2, len(st.items()) + 1))
+    if not q:
+        for st in [leaf_filter, stages[2], TransformStage(2), mtbig, mw]:
+            real_stage_run(ctx, st, 3, k=ctx.rng.randrange(1, len(st.items()) + 2))
+        for st in [TransformStage(1), mt, mw]:
+            real_stage_run(ctx, st, 2, k=0)
+    # (6) histories on one Pyramid object
+    history_check(ctx)
     if not q:
         real_leaf_run(ctx, 2, 3)
         real_leaf_run(ctx, 2, 5, accept=acc5)
         real_leaf_run(ctx, 3, 4)
     ctx.assume("CPython's multiprocessing.Queue/Event/Process behave like the fake ones of lib/simmp.py (step structure read from multiprocessing/queues.py 3.12); the real-process runs sample that")
     ctx.assume("timeouts may fire whenever their wait condition holds (the property quantifies over every interleaving)")
+    ctx.assume("a producer-side fault is an exception raised by the iterable the parent draws its items from (position generator, tile filter, "
+               "collection.images()) while worker processes exist; what the stage must do then is only: not return normally with items undelivered")
+    ctx.assume("object histories: subpyramid() at most once per object and never deeper than the depth (its documented contract); the user filter is a pure function of the position")
